@@ -32,6 +32,17 @@ func main() {
 		err = l1Conc(os.Args[2:])
 	case "l1-nonce":
 		err = l1Nonce(os.Args[2:])
+	case "reload-pilot":
+		err = l1.ReloadPilot(os.Stdout, scratchDir(""))
+	case "reload-run":
+		err = reloadRun(os.Args[2:])
+	case "cfg-child":
+		err = l1.CfgChild(os.Args[2], os.Args[3])
+	case "print-managed-config":
+		fmt.Print(l1.ManagedConfig)
+	case "compiles":
+		b, rerr := os.ReadFile(os.Args[2])
+		fmt.Println(rerr == nil && l1.Compiles(b))
 	default:
 		err = dispatchExtra(os.Args[1], os.Args[2:])
 	}
@@ -428,5 +439,99 @@ func l1Nonce(args []string) error {
 		events += counts[i]
 	}
 	fmt.Printf("{\"traces\":%d,\"events\":%d}\n", len(all), events)
+	return nil
+}
+
+
+// reload-run: execute interleavings / failed reloads / rollback scenarios listed in a job file (ndjson) and write the trace.
+func reloadRun(args []string) error {
+	fs := flag.NewFlagSet("reload-run", flag.ExitOnError)
+	in := fs.String("jobs", "jobs.ndjson", "jobs")
+	out := fs.String("out", "reload-trace", "trace output")
+	scratch := fs.String("scratch", "", "scratch dir")
+	_ = fs.Parse(args)
+	sd := scratchDir(*scratch)
+	if *scratch == "" {
+		defer os.RemoveAll(sd)
+	}
+	inf, err := os.Open(*in)
+	if err != nil {
+		return err
+	}
+	defer inf.Close()
+	f, err := os.Create(*out)
+	if err != nil {
+		return err
+	}
+	defer f.Close()
+	enc := json.NewEncoder(f)
+	pairs := map[string]l1.ReloadPair{}
+	for _, p := range l1.ReloadPairs() {
+		pairs[p.Name] = p
+	}
+	type job struct {
+		Kind     string   `json:"kind"` // interleave | failed | rollback
+		Pair     string   `json:"pair"`
+		Probe    string   `json:"probe"`
+		Order    []string `json:"order"`
+		Old      string   `json:"old"`
+		New      string   `json:"new"`
+		Class    string   `json:"class"`
+		Scenario string   `json:"scenario"`
+		Name     string   `json:"name"`
+	}
+	sc := bufio.NewScanner(inf)
+	sc.Buffer(make([]byte, 1<<20), 1<<26)
+	n := 0
+	for sc.Scan() {
+		if len(sc.Bytes()) == 0 {
+			continue
+		}
+		var j job
+		if err := json.Unmarshal(sc.Bytes(), &j); err != nil {
+			return err
+		}
+		n++
+		switch j.Kind {
+		case "interleave":
+			pair, ok := pairs[j.Pair]
+			if !ok {
+				return fmt.Errorf("unknown pair %q", j.Pair)
+			}
+			var probe *l1.ReloadProbe
+			for i := range pair.Probes {
+				if pair.Probes[i].Name == j.Probe {
+					probe = &pair.Probes[i]
+				}
+			}
+			if probe == nil {
+				return fmt.Errorf("unknown probe %q", j.Probe)
+			}
+			obs, pseg, rseg, settled, ok2, err := l1.RunInterleaving(sd, pair, *probe, j.Order)
+			if err != nil {
+				return err
+			}
+			_ = enc.Encode(map[string]any{"ev": "Reset", "tr": j.Name})
+			_ = enc.Encode(map[string]any{"ev": "Probe", "pair": j.Pair, "probe": j.Probe, "order": j.Order, "obs": obs, "old": j.Old, "new": j.New, "pseg": pseg, "rseg": rseg, "reload_ok": ok2})
+			_ = enc.Encode(map[string]any{"ev": "Settled", "pair": j.Pair, "probe": j.Probe, "obs": settled, "old": j.Old, "new": j.New})
+		case "failed":
+			ev, err := l1.FailedReload(sd, pairs[j.Pair], j.Class)
+			if err != nil {
+				return err
+			}
+			_ = enc.Encode(map[string]any{"ev": "Reset", "tr": j.Name})
+			_ = enc.Encode(ev)
+		case "rollback":
+			ev, err := l1.RollbackScenario(sd, j.Scenario)
+			if err != nil {
+				return err
+			}
+			_ = enc.Encode(map[string]any{"ev": "Reset", "tr": j.Name})
+			_ = enc.Encode(ev)
+		default:
+			return fmt.Errorf("unknown job kind %q", j.Kind)
+		}
+	}
+	fmt.Printf("{\"jobs\":%d}\n", n)
 	return nil
 }
